@@ -2,15 +2,55 @@
 import vlib
 
 TRUSTED = [
-    "hand-written model coq/C08/SchedModel.v of toolkit/chrono/scheduler.go + scheduler_task.go over the contract of "
+    "hand-written model coq/C08/SchedModel.v of toolkit/chrono/scheduler.go + scheduler_task.go (REPAIRED by "
+    "fixes/C08-timer-handle.patch; the as-shipped variant is the same model with s_fixed = false) over the contract of "
     "github.com/RussellLuo/timingwheel (ScheduleFunc / Timer.Stop; a timer with expiration E ms runs when the bucket "
-    "trunc(E, tick) expires), tied by differential runs in virtual time (harness/cmd/c08sched) — not a translation",
+    "trunc(E, tick) expires; sequential: Stop always finds the timer), tied by differential runs in virtual time "
+    "(harness/cmd/c08sched) — not a translation; cron restricted to 'every k seconds' with ticks that divide 1000 ms",
+    "hand-written model coq/C08/ActorModel.v of the scheduler part of engine/vivid/actor_context.go (one actor, no children; "
+    "callbacks = queued system messages, idle deadline, expiry, restart, termination), tied ONLY by differential runs on a real "
+    "ActorSystem (harness/cmd/c08actor); compared up to the first wheel bucket that a deadline timer shares with another timer",
     "Go harnesses + generators + monitors (harness/cmd/c08sched, harness/cmd/c08actor, harness/vh), bin/check, lib/vlib.py",
     "testing/synctest (go1.26.8): virtual clock, every goroutine of the system inside the bubble; the default ants dispatcher "
     "replaced by a goroutine dispatcher through the verif hook VerifSetDefaultDispatcher",
 ]
-FINDING = "C08-stale-callback-after-restart"
-MANIFEST = {"text": "", "note": "", "technique": ""}
+FINDING_STALE = "C08-stale-callback-after-restart"
+FINDING_DST = "C08-daymoment-dst-drift"
+MANIFEST = {
+    "text": "Proved in Coq about an executable model of chrono.Scheduler over the timing-wheel contract (repaired code: the task keeps the "
+            "wheel's handle), for every tick, delay, interval, repeat count (also forever and cron) and every history of register / "
+            "re-register / unregister / clear / close operations, including callbacks that unregister or re-register their own task: no "
+            "operation and no such callback crashes; a one-shot runs at most once and a task repeated N times at most N times whatever "
+            "else happens, exactly once / exactly N times when its name is left alone until its last due instant has passed; the k-th "
+            "run happens in the wheel bucket of registration instant + max(delay, tick) + (k-1) intervals (in ms), i.e. less than one "
+            "tick + 1 ms before that instant and never after it in model time; re-registering a name kills the task that held it and "
+            "binds the name to the new one; an unregistered task never runs again (never at all if it had not run yet); Clear and Close "
+            "cancel every task; nothing is run by a timer after Close; in the actor-level model no callback is executed once the actor has terminated "
+            "(whatever is still queued is dropped) and its wheel is stopped. As shipped the property is refuted (C08_no_crash_as_shipped_refuted: "
+            "unregistering a pending repeated task dereferences the nil handle). Each run replays ~2 500 scheduler histories (40 000 "
+            "thorough) and ~1 500 histories of a real actor on a real ActorSystem (20 000 thorough) in virtual time (testing/synctest) "
+            "through the Go code and the models inside Coq and compares the executed callbacks (instant in ms, task, ordinal), the "
+            "results of the operations and the instant of termination exactly; Go-side monitors restate the property: callback turns "
+            "never overlap a handler, counts, not early / not late, nothing after a cancellation that came before the due instant, "
+            "nothing after the owner's OnTerminated, restart and termination complete, the parent is notified, Shutdown returns "
+            "(virtual watchdog), idle deadline and expiry terminate only when due.",
+    "note": "needs fixes/C08-timer-handle.patch (one line: task.timer = s.wheel.ScheduleFunc(...)): on the unpatched tree StopTask / "
+            "re-register / Clear / Close on a pending repeating, forever or cron task panic, an actor that owns one cannot restart and "
+            "its termination never reaches its parent, so Shutdown hangs; the check prints VIOLATION with replay files. 'Not early' holds "
+            "only up to the wheel's granularity (C08_oneshot_not_early_strict_refuted: a 25 ms one-shot can run 18.5 ms after its "
+            "registration on a 10 ms wheel); wall-clock drift is outside the model (its clock is the wheel's). The actor-level model "
+            "(coq/C08/ActorModel.v: callbacks as queued turns, idle deadline, expiry, restart, termination; one actor, no children) is "
+            "tied by differential runs; two safety theorems are proved about it (no callback runs after the actor has terminated and it "
+            "stays terminated; a terminated actor's wheel is stopped), 'idle deadline / expiry only when due' and 'callbacks are turns' "
+            "are checked by monitors only; histories in which a deadline timer shares its wheel bucket "
+            "with another timer are compared up to that bucket only (about a quarter of the generated actor histories). Two findings "
+            "proposed in checks/c08_findings.json (callbacks of the previous incarnation run after a restart; day-moment tasks drift by "
+            "an hour across daylight-saving changes) are reproduced only when listed as open. Trusted: the hand-written models (tied by "
+            "differential runs, not translations), the timing-wheel contract as modelled (sequential: Stop always finds the timer), the "
+            "harnesses, synctest's virtual clock, the verif hook that replaces the default dispatcher.",
+    "technique": "Coq proof (instance-wise invariants + transition summaries composed over histories, binary-fuel iteration) + "
+                 "differential runs in virtual time (testing/synctest) on chrono.Scheduler and on a real ActorSystem + Go-side monitors",
+}
 
 _orig_go_build = vlib.go_build
 
@@ -22,9 +62,11 @@ def _go_build(ctx, pkg, **kw):
 
 
 def harnesses():
-    on = any(f.get("id") == FINDING for f in vlib.known_findings("C08"))
-    return [{"pkg": "c08sched", "sub": "sched", "go": "go1.26.8"},
-            {"pkg": "c08actor", "sub": "actor", "go": "go1.26.8", "args": ["-stalecb"] if on else []}]
+    # the two streams that reproduce the proposed findings run once those findings are listed as open in known_findings.json
+    # (then every run reports them as KNOWN-FINDING with a reproduction count)
+    ids = {f.get("id") for f in vlib.known_findings("C08")}
+    return [{"pkg": "c08sched", "sub": "sched", "go": "go1.26.8", "args": ["-dst"] if FINDING_DST in ids else []},
+            {"pkg": "c08actor", "sub": "actor", "go": "go1.26.8", "args": ["-stalecb"] if FINDING_STALE in ids else []}]
 
 
 HARNESSES = harnesses()
